@@ -412,3 +412,71 @@ _t(
     kept=["/t9/p", "/t9/r"],
 )
 T["T9"].modules["tq.zclash"] = {"a": clash_source(T["T9"])}
+
+# ---------------------------------------------------------------- T13: spellings of one binding; literals seen in source
+_T13 = '''
+def h1(x):
+    tick.hit("h1")
+    return ("h1", x)
+
+
+def g2(a, b):
+    tick.hit("g2")
+    return ("g2", a, b)
+
+
+def g3(x, y=5, z="k"):
+    tick.hit("g3")
+    return ("g3", x, y, z)
+
+
+def gf(x, y=0, z=None):
+    tick.hit("gf")
+    return ("gf", x, y, z)
+
+
+def root_pos():
+    return dds.keep("/t13/a", g3, 1, 7, "q")
+
+
+def root_kw():
+    return dds.keep("/t13/a", g3, 1, 7, z="q")
+
+
+def root_kw2():
+    return dds.keep("/t13/a", g3, z="q", y=7, x=1)
+
+
+def root_def():
+    return dds.keep("/t13/a", g3, 1)
+
+
+def root_defx():
+    return dds.keep("/t13/a", g3, 1, 5, "k")
+
+
+def root_defk():
+    return dds.keep("/t13/a", g3, 1, z="k")
+
+
+def root_other():
+    return dds.keep("/t13/a", g3, 1, 7, "r")
+
+
+def root_swap():
+    return dds.keep("/t13/a", g2, 2, 1)
+
+
+def root_same():
+    return dds.keep("/t13/a", g2, 1, 2)
+'''
+LITERALS = [("0", 0), ("1", 1), ("-1", -1), ("True", True), ("False", False), ("None", None), ('""', ""), ('"a"', "a"), ("1.5", 1.5)]
+for _i, (_src, _v) in enumerate(LITERALS):
+    _T13 += "\n\ndef lit_%d():\n    return dds.keep(\"/t13/a\", h1, %s)\n" % (_i, _src)
+_t(
+    "T13",
+    [PKG, ("tq.m1", {"a": HEAD + _T13})],
+    leaves=[],
+    entry=("tq.m1", "root_pos"),
+    kept=["/t13/a"],
+)
